@@ -22,7 +22,7 @@ Proof. reflexivity. Qed.
    own (23 shares the probe's stat, 24 decides, 98 returns) or are not evaluated for an existing destination (26) *)
 Theorem copy_new_steps_model : forall fc src dst n len,
   flat_map step_code_of (fst (copy_actions fc src dst (mkEnv true false (Some n) len false false [] 0))) =
-  filter (fun c => negb ((c =? 23) || (c =? 24) || (c =? 98) || (c =? 26) || (c =? 27) || (c =? 28) || (c =? 97))) x_copy_new_steps.
+  filter (fun c => negb ((c =? 23) || (c =? 24) || (c =? 98) || (c =? 26) || (c =? 27) || (c =? 28) || (c =? 97) || (c =? 29))) x_copy_new_steps.
 Proof.
   intros [np nt ow fs] src dst n len. unfold copy_actions. cbn [ce_dst_exists ce_same_file andb].
   destruct ow, np, nt, fs; vm_compute; reflexivity.
